@@ -89,7 +89,8 @@ func (l *vfL3) close() {
 		l.s.Stop()
 	}
 	l.ns.Shutdown()
-	os.RemoveAll(l.dir)
+	// the data directory stays until the driver removes the shard's scratch
+	// space (see vfCluster.close)
 }
 
 func scratchRoot() string {
